@@ -243,7 +243,7 @@ OBLIGATIONS.append(k2("rc.entity_event_dead", f"{RC}rc_entity_event_dead_2_0_1",
 for (nm, which, ne, ki, km, kr, tiers) in [("insertion", 0, 2, 1, 1, 1, ("quick", "thorough")), ("mutation", 1, 2, 1, 1, 1, ("quick", "thorough")),
                                           ("insertion", 0, 1, 2, 0, 1, ("thorough",)), ("mutation", 1, 0, 0, 2, 1, ("thorough",)),
                                           ("insertion", 0, 0, 0, 1, 1, ("thorough",))]:
-    OBLIGATIONS.append(k2(f"rc.{nm}_{ne}_{ki}_{km}_{kr}", f"{RC}rc_{nm}_{ne}_{ki}_{km}_{kr}", ["C01", "C03"],
+    OBLIGATIONS.append(k2(f"rc.{nm}_{ne}_{ki}_{km}_{kr}", f"{RC}rc_{nm}_{ne}_{ki}_{km}_{kr}", ["C01", "C03", "C14"],
                           [f"ReactCache::schedule_{nm}_reaction", "schedule_entity_reaction_impl", "EntityReactors::iter_rtype"],
                           RC_SRC,
                           f"shape: target with {ne} entity-scoped {nm} reactors for the component among reactors of the other kinds and of "
@@ -289,6 +289,14 @@ OBLIGATIONS += [
        "4 entities (one with a child); first released entity symbolically already despawned by other means; second symbolically released or held; third has a live clone",
        "the collector despawns exactly the released entities with their descendants, skips already-dead ids without stopping, never touches an "
        "entity with a live signal clone, and is idempotent"),
+    k2("gc.parent_then_child", _k2h("ecs::auto_despawn", "gc_parent_then_child_in_one_batch"), ["C10", "C18", "C07"],
+       ["garbage_collect_entities", "AutoDespawner::try_recv", "Drop for AutoDespawnSignalInner"], ["src/ecs/auto_despawn.rs"],
+       "one batch: a parent, its child, an unrelated entity, released in that order",
+       "an id already taken down by an earlier id of the same batch is ignored (no panic) and what was released behind it is still "
+       "collected by this first collection; idempotent"),
+    k2("gc.prepared_twice", _k2h("ecs::auto_despawn", "gc_entity_prepared_twice"), ["C10", "C18"],
+       ["garbage_collect_entities", "AutoDespawner::prepare"], ["src/ecs/auto_despawn.rs"],
+       "one batch: one entity prepared twice (both signals released), then an unrelated entity", "as gc.parent_then_child", ("thorough",)),
     k2("gc.released_and_held", _k2h("ecs::auto_despawn", "gc_released_and_held"), ["C10", "C07", "C18"],
        ["garbage_collect_entities", "AutoDespawner::try_recv", "AutoDespawner::prepare", "Drop for AutoDespawnSignalInner"],
        ["src/ecs/auto_despawn.rs"],
@@ -804,10 +812,10 @@ _QUICK_ONLY_FOR = {
     "revoke.past_dead_entity": ["C18", "C07"],
     "entreactors.remove_shape0": [], "entreactors.remove_shape1": [], "entreactors.remove_shape2": ["C06"],
     "entreactors.remove_two_same_type": ["C06", "C16"], "entreactors.remove_two_types": ["C01"],
-    "gc.all_released": [], "rc.despawn_dispatch_twice": [],
+    "gc.all_released": [], "gc.parent_then_child": ["C10"], "rc.despawn_dispatch_twice": [],
     "rc.entity_event_2_1_1": ["C01", "C05"], "rc.entity_event_0_0_1": ["C01", "C05"],
-    "rc.insertion_2_1_1_1": ["C01"], "rc.mutation_2_1_1_1": ["C01"],
-    "rc.revoke_component_1_0_1": ["C06", "C01", "C07"], "rc.revoke_component_1_0_0": [],
+    "rc.insertion_2_1_1_1": ["C01"], "rc.mutation_2_1_1_1": ["C01", "C14"],
+    "rc.revoke_component_1_0_1": ["C06", "C01", "C07", "C14"], "rc.revoke_component_1_0_0": [],
     "rc.entity_event_dead": [], "rc.revoke_despawn_2_1": ["C06", "C18"], "rc.revoke_broadcast_2_1": ["C06", "C01"],
     "sysevt.drain3": ["C12"], "evt.drain3": ["C03"], "desp.step": ["C12", "C03"], "ent.step": ["C12", "C03"],
     "desp.witness": ["C12"], "ent.witness": ["C12"], "bundle.reactor_types": ["C06", "C16"],
